@@ -44,7 +44,7 @@ def run(spec):
     ok_p, plog = pika_build(spec.get('variant', 'hooks'))
     ok_h, hbin, hlog = (False, '', '')
     if ok_p:
-        ok_h, hbin, hlog = compile_harness(spec['bin'], spec['harness'], spec.get('variant', 'hooks'))
+        ok_h, hbin, hlog = compile_harness(spec['bin'], spec['harness'], spec.get('variant', 'hooks'), libs=spec.get('libs', ''))
     if not (ok_p and ok_h):
         p = write_replay(prop, f'build-failure-{base_seed}.txt', (plog if not ok_p else hlog))
         write_evidence(prop, tr, base_seed, {'obligations': audit['obligations'], 'discharged': audit['discharged'],
@@ -112,6 +112,18 @@ def run(spec):
                 kinds['monitor'] += 1
 
     kf = known_findings(prop)
+    # documented findings of the pinned tree that need a directed schedule: replayed on every run;
+    # reproduced -> KNOWN-FINDING line (exit status unaffected); a different failure -> violation
+    for fd in ([] if replay else spec.get('findings', [])):
+        fpath = os.path.join(HERE, fd['case'])
+        fr = run_e1(hbin, spec['model'], [open(fpath).read().strip()], tag=prop + 'f')[0]
+        if classify(fr) == 'monitor' and fd['signature'] in fr['verdict']:
+            known_lines.append(f"KNOWN-FINDING: property={prop} {fd['id']}: reproduced by {fd['case']}: {fr['verdict'].split('monitors FAIL:')[-1].strip()[:160]}")
+        elif classify(fr) == 'pass':
+            notes.append(f"finding {fd['id']} no longer reproduces")
+            print(f"NOTE: property={prop} finding {fd['id']} ({fd['case']}) no longer reproduces on this tree")
+        else:
+            bad.append((classify(fr), open(fpath).read().strip(), fr))
     mon = [b for b in bad if b[0] == 'monitor']
     ties = [b for b in bad if b[0] == 'tie']
     reported = set()
